@@ -42,7 +42,7 @@ static int asn_DEF_PrintableString_c2v(unsigned int code) {
 	return -1;
 }
 static asn_per_constraints_t asn_DEF_PrintableString_per_constraints = {
-	{ APC_CONSTRAINED, 4, 4, 0x20, 0x39 },	/* Value */
+	{ APC_CONSTRAINED, 7, 7, 0x20, 0x7a },	/* Value */
 	{ APC_SEMI_CONSTRAINED, -1, -1, 0, 0 },	/* Size */
 	asn_DEF_PrintableString_v2c,
 	asn_DEF_PrintableString_c2v
